@@ -64,6 +64,9 @@ fn main() {
     if args.len() < 3 {
         usage();
     }
+    if (args[1] == "replay-fuzz" || args[1] == "corpus") && args.len() < 4 {
+        usage();
+    }
     let dir = verif_dir();
     let known = findings::load(&dir);
     let mut tier = match std::env::var("VERIF_TIER").as_deref() {
@@ -71,7 +74,7 @@ fn main() {
         _ => Tier::Quick,
     };
     let mut seed: u64 = std::env::var("VERIF_SEED").ok().and_then(|s| s.parse().ok()).unwrap_or(1);
-    let mut i = 3;
+    let mut i = if args[1] == "run" { 3 } else { args.len() };
     while i < args.len() {
         match args[i].as_str() {
             "--tier" => {
@@ -92,6 +95,33 @@ fn main() {
     let workers: usize = std::env::var("VERIF_WORKERS").ok().and_then(|s| s.parse().ok()).unwrap_or(12);
     vharness::util::quiet_panics();
     match args[1].as_str() {
+        // vcheck corpus <target> <dir>: write the seed corpus of a fuzz target
+        "corpus" => {
+            let n = vharness::fuzz::write_corpus(&args[2], Path::new(args.get(3).map(|s| s.as_str()).unwrap_or("corpus"))).unwrap_or(0);
+            println!("corpus {}: {} files", args[2], n);
+            std::process::exit(0);
+        }
+        // vcheck replay-fuzz <target> <artifact>: re-run one fuzz input in-process
+        "replay-fuzz" => {
+            let data = std::fs::read(&args[3]).unwrap_or_default();
+            let prop = match args[2].as_str() {
+                "fz_decode" => "C04",
+                "fz_chunk" => "C09",
+                _ => "C05",
+            };
+            match vharness::fuzz::run_target(&args[2], &data) {
+                Some(Ok(())) => {
+                    println!("replay-fuzz {}: property {} holds on this input", args[3], prop);
+                    std::process::exit(0);
+                }
+                Some(Err(f)) => {
+                    println!("rule={} sig={}\n{}", f.rule, f.sig, f.detail);
+                    println!("VIOLATION property={} replay={}", prop, args[3]);
+                    std::process::exit(1);
+                }
+                None => usage(),
+            }
+        }
         "replay" => {
             let ctx = Ctx { tier, seed, workers, verif_dir: dir.clone(), known, strict: true };
             match replay_file(&ctx, Path::new(&args[2])) {
@@ -160,6 +190,20 @@ fn main() {
             let mut rep = (check.run)(&ctx);
             rep.known_hits = known_lines;
             rep.stats.count("regression_replays", reg_n);
+            if let Ok(fz) = std::env::var("VERIF_FUZZ_SUMMARY") {
+                // "<target> runs=<n> cov=<n> corpus=<n> crashes=<n>"
+                rep.parts.push(json!({"part": "libfuzzer_campaign", "summary": fz}));
+                for tok in fz.split_whitespace() {
+                    if let Some((k, v)) = tok.split_once('=') {
+                        if let Ok(n) = v.parse::<u64>() {
+                            rep.stats.count(&format!("fuzz_{k}"), n);
+                            if k == "runs" {
+                                rep.stats.evaluations += n;
+                            }
+                        }
+                    }
+                }
+            }
             let d23 = vharness::scn::EXCLUDED_D23.load(std::sync::atomic::Ordering::Relaxed);
             if d23 > 0 {
                 rep.stats.count("generated_connacks_with_known_finding_D23_trigger_removed", d23);
